@@ -7,8 +7,8 @@ HERE = os.path.dirname(os.path.abspath(__file__))
 
 # id -> (technique, level text, level note, design ref)
 CLAIMS = {
- "C06": ("typestate dataflow over SSA CFGs (make/undo, frame, stack pairing on every path) + dominance (state cleared before search)",
-         "Structural necessary conditions decided exhaustively over all CFG paths: every MakeMove/MakeNullMove/frame push/history push in search, perft and the abort fallback is closed on every path with the matching token; sticky search state is cleared before iterating. A violation implies an input/abort point on which the board is left changed or a later search starts aborted. Legality of the returned move for concrete positions is not decided.",
+ "C06": ("typestate dataflow over SSA CFGs (make/undo, frame, stack pairing on every path), dominance (state cleared before search), origin dataflow of the returned move, taint from strconv to narrowing conversions, constant-table checks of the spsa build",
+         "Structural necessary conditions decided exhaustively over all CFG paths: every MakeMove/MakeNullMove/frame push/history push in search, perft and the abort fallback is closed on every path with the matching token; sticky search state is cleared before iterating; the returned move comes only from the PV or from the legality-filtered fallback over both generator halves; numbers parsed from UCI text are range-checked before narrowing (found and fixed: F-3, `go depth 200` -> bestmove 0000); spsa tunables agree with the constants and keep divisors and shift counts valid. A violation implies an input/abort point on which the board is left changed, a later search starts aborted, or a null/illegal move is returned. Legality of the returned move for concrete positions is not decided.",
          "Trusts go/types+go/ssa (x/tools v0.50.0); panicking exits ignored; does not decide behaviour for concrete positions or abort points.",
          "DESIGN.md §3 C06"),
  "C04": ("effect/ownership sets over SSA (single writer of the three board encodings, immutable Zobrist tables) + def-use slices of the appended hash (no dropped delta, paired toggles, index/bit agreement) + sibling comparison of from-scratch vs incremental hash terms",
@@ -59,6 +59,14 @@ CLAIMS = {
          "Structural necessary conditions: every attack pattern in IsCheckmate/IsStalemate/Attackers/Block/IsAttacked is paired with the piece kinds and pawn colour geometry dictates; every pinned decision is taken from a diagonal AND a lateral test on the same simulated occupancy from the king's square against the opponent; IsCheckmate/IsStalemate are called only with their in-check precondition established; king flights are tested with the king removed from the occupancy. Agreement of the case analysis with move generation for concrete positions is not decided.",
          "Trusts go/ssa.",
          "DESIGN.md §3 C09, §3.0"),
+ "C07": ("dominance and reachability over SSA (entry clear, splice after undo inside the window, adoption and report from the same buffer with no search in between), shape check of pv.insert, loop-structure check of the report",
+         "Structural necessary conditions: each node clears its PV slot first; a child's line is spliced only behind the move that was just searched and undone, only when its value is strictly inside the window; insert copies the child's line with its length; the adopted move, the ponder move and the printed variation come from the same buffer with no search in between, only after the aspiration loop succeeded; ponder is cleared for lines shorter than two; one report per depth, depths increasing. Legality of the PV moves themselves (run-time table contents) is not decided.",
+         "Trusts go/ssa; bufIx arithmetic is not decided.",
+         "DESIGN.md §3 C07"),
+ "C08": ("transitive nondeterminism/effect audit over the VTA closure of Search.Go with forward taint of wall-clock values (data and control dependence), guard analysis of the node counter, reader census of the soft limits",
+         "Structural necessary conditions: the only nondeterminism sources reachable from Search.Go are the wall clock (whose values reach only the info line, Counters.Time and the soft-limit test), the two channel polls and the output hand-off; no package-level state is written; the node counter is only incremented, under Nodes == -1 or Counters.Nodes < Nodes; soft limits are consulted only between iterations. Equality of two runs is not decided.",
+         "VTA over-approximates dynamic calls; std callees outside time/rand/runtime/os are taken to be deterministic.",
+         "DESIGN.md §3 C08"),
 }
 
 NOT_YET = "no static rule of DESIGN.md §3 for this property is built in this revision yet; not claimed"
